@@ -17,6 +17,7 @@ EXPLANATION = ("Necessary shape conditions decided on all paths of the five chan
 EXPLANATION += " R08.2 accepts the power-of-two mask spelling of the index, also through a named generic constant; (R08.7) answers: try_send_reserved answers true after the publication (the arm taken on the publication's Some answer returns true, the default is false), try_cancel_slot_reserve answers the un-reserve's own boolean or true after the infallible deallocation, and the ring's try_unleak_* / try_publish_* answer true exactly on their CAS's success edge."
 EXPLANATION += ' (R08.8) the poll / waker protocol of C04 (R04.1 / R04.2) under this property: a reserved send is delivered to a consumer that is about to park.'
 EXPLANATION += " R08.3 also requires every candidate sequence id of try_publish_leaked_internal_index / try_unleak_slot_index_internal to be derived from the caller's slot index (never the reloaded counter itself)."
+EXPLANATION += " R08.7 also requires the zero-copy containers' publish_leaked_id / publish_leaked_ref to answer the ring's own publication answer (never a length re-read afterwards); (R08.9) C14's unique -> shared conversion rules."
 ASSUMPTIONS = ["the exhaustive history clause ('after any sequence ... accepts exactly BUFFER_SIZE again') is a behavioural statement; decided here are the shape conditions it stands on",
                "payload types without destructor (property's own restriction)"]
 
